@@ -142,9 +142,9 @@ def _run(case, rec, planar):
 
 def clauses():
     return [
-        Clause("polygon_any_plane", _case(False), lambda c, r: _run(c, r, False), quick=2000, thorough=60000, rule="see RULE",
+        Clause("polygon_any_plane", _case(False), lambda c, r: _run(c, r, False), quick=6000, thorough=60000, rule="see RULE",
                floors={"cw_about_normal": 0.2, "nonconvex": 0.3, "tilted": 0.3, "reflex_first": 0.02}),
-        Clause("polygon_xy_plane", _case(True), lambda c, r: _run(c, r, True), quick=2000, thorough=60000,
+        Clause("polygon_xy_plane", _case(True), lambda c, r: _run(c, r, True), quick=6000, thorough=60000,
                rule="same, polygon kept in the xy-plane so that planar moments are asserted; integer polygons exact",
                floors={"plus_z": 0.25, "Ixy<0": 0.05, "cw_about_normal": 0.2, "exact": 0.03}),
     ]
